@@ -21,7 +21,7 @@ THEOREMS = [
     'C17_sort_fuel_sufficient', 'C17_sort_error_propagates', 'C17_sort_keyf_error_propagates',
     'C17_uniq_spec', 'C17_uniq_no_adjacent_duplicates', 'C17_set_is_uniq_sort', 'C17_set_spec',
     'C17_union_spec', 'C17_inter_spec', 'C17_diff_spec', 'C17_member_spec',
-    'C17_minArray_first_min', 'C17_maxArray_first_max', 'C17_set_functions_no_panic',
+    'C17_minArray_first_min', 'C17_maxArray_first_max', 'C17_set_functions_no_panic', 'C17_run_sort_numkeys_spec',
     'C17_nonvacuous_sort', 'C17_nonvacuous_uniq', 'C17_nonvacuous_sets', 'C17_nonvacuous_member_minmax',
 ]
 ALLOWED_AXIOMS = set()
